@@ -609,7 +609,7 @@ def gen_equation(r, case, idx):
     name = 'i%d' % idx
     shape = r.choice(['outer', 'outer', 'plain', 'additive', 'additiveV', 'factorV', 'prod_same', 'prod_diff',
                       'sum_same', 'sum_diff', 'nopattern', 'nopattern', 'excluded', 'pwouter', 'outer_sum_same', 'recip',
-                      'negpow'])
+                      'negpow', 'sum_same_recip'])
     V = ['v', 'V']
     P = lambda: lit_or_const(r, case, r.choice(['0.32', '3', '-2.1', '120', '0.0005', '-0.08', '7.5']))   # noqa: E731
     kind, merge = 'pattern', None
@@ -653,7 +653,7 @@ def gen_equation(r, case, idx):
     elif shape == 'factorV':
         ast = ['*', ['+', ['*', ['n', '0.01'], V], ['n', '3']], g1]
     else:
-        same = shape.endswith('same')
+        same = 'same' in shape
         g2, t2 = gen_term_with_sp(r, case, t1) if same else gen_term(r, case)
         if not same:
             # keep the two singular points well apart
@@ -665,6 +665,18 @@ def gen_equation(r, case, idx):
             merge = 'same'
         terms.append(t2)
         ast = ['*', g1, g2] if shape.startswith('prod') else ['+', g1, g2]
+        if shape == 'sum_same_recip':
+            # two terms sharing a singular point plus a summand that has no singularity of its own but WRAPS a term with
+            # another singular point in a denominator kept away from zero (round-13 seed C12-21: the nested repair of that
+            # summand must survive when the same-point summands are merged into one window)
+            g3, t3 = gen_term(r, case)
+            tries = 0
+            while abs(mp.mpf(t3['sp']) - mp.mpf(t1['sp'])) < 3 and tries < 20:
+                g3, t3 = gen_term(r, case)
+                tries += 1
+            terms.append(t3)
+            c = lit_or_const(r, case, r.choice(['400', '250.5', '1000']))
+            ast = ['+', ast, ['/', P(), ['+', c, g3]]]
         if shape == 'outer_sum_same':
             # an outer factor / divisor applied to the sum of two terms sharing the singular point
             ast = ['*', P(), ast] if r.random() < 0.5 else ['+', ['/', ast, P()], P()]
